@@ -406,3 +406,36 @@ func Replay(t *testing.T, prop string, repeat int, run func(raw json.RawMessage)
 	}
 	fmt.Printf("\nVERIF-REPLAY-OK property=%s attempts=%d\n", prop, repeat)
 }
+
+// closeTestServer shuts a httptest server down without waiting for handlers that
+// a broken tree may have left blocked for ever.
+func closeTestServer(s interface {
+	CloseClientConnections()
+	Close()
+}) {
+	done := make(chan struct{})
+	go func() {
+		s.CloseClientConnections()
+		s.Close()
+		close(done)
+	}()
+	select {
+	case <-done:
+	case <-time.After(3 * time.Second):
+	}
+}
+
+// bounded runs fn but gives up waiting after d (fn keeps running in the background).
+func bounded(d time.Duration, fn func()) bool {
+	done := make(chan struct{})
+	go func() {
+		defer close(done)
+		fn()
+	}()
+	select {
+	case <-done:
+		return true
+	case <-time.After(d):
+		return false
+	}
+}
